@@ -212,7 +212,9 @@ def _exec(plan, dims, salt=None, child=None):
         o["salt"] = salt
     if "list_order" in dims:
         # the same option SET, spelled in another order
-        for key in ("words", "as", "reserved", "pp", "pa"):
+        # (preserve lists are left alone: the map file lists their /32 entries in the order given, which is a
+        # different spelling of the options rather than a different run of the same ones)
+        for key in ("words", "as", "reserved"):
             if o.get(key) and len(o[key]) > 1:
                 rot = plan["k2"]["pid"] % (len(o[key]) - 1) + 1
                 o[key] = list(reversed(o[key][rot:] + o[key][:rot]))
@@ -338,7 +340,7 @@ def check(plan):
     if "prehistory" in dims:
         exercised = exercised or bool(plan["pre"])
     if "list_order" in dims:
-        exercised = exercised or any(plan["opts"].get(k) and len(plan["opts"][k]) > 1 for k in ("words", "as", "reserved", "pp", "pa"))
+        exercised = exercised or any(plan["opts"].get(k) and len(plan["opts"][k]) > 1 for k in ("words", "as", "reserved"))
     if "schedule" in dims:
         probes["sched_points"] = h1.get("sched_points", 0) + (h2.get("sched_points", 0) if isinstance(h2, dict) else 0)
     if any(d in dims for d in ("rand", "clock_pid", "buffers", "environ")) or child is not None:
